@@ -9,6 +9,7 @@ import (
 
 	"perun.network/go-perun/channel"
 	"perun.network/go-perun/client"
+	"perun.network/go-perun/wire"
 
 	"verif/sim/gen"
 	"verif/sim/kernel"
@@ -68,6 +69,15 @@ func genSettleScenario(r *kernel.Rand, prop string) *kernel.Scenario {
 		c["slow_sub_update_ms"] = int64([]int{2000, 7000}[r.Intn(2)])
 		c["short_settle_ctx"] = 1
 	}
+	if prop == "C04" && c["slow_sub_update_ms"] == 0 && r.Bool(0.3) {
+		// the honest user takes seconds to decide on an update of the ledger
+		// channel while the dispute starts, and (mostly) settles only when the
+		// challenge period is over
+		c["slow_ledger_update_ms"] = int64([]int{1500, 4000}[r.Intn(2)])
+		c["lazy_settle"] = int64(r.Weighted([]int{1, 3}))
+	} else if prop == "C04" && r.Bool(0.15) {
+		c["lazy_settle"] = 1
+	}
 	if prop == "C04" {
 		// adversarial registrations of outdated states by side "adv" at drawn instants
 		adv := r.Intn(2)
@@ -108,7 +118,20 @@ func execSettle(t *testing.T, sc *kernel.Scenario, trace bool) *kernel.Result {
 		}
 		adv := int(sc.Cfg("adv", -1))
 		honest := 1 - adv
-		st0 := &c04state{p: p, adv: adv, honest: honest}
+		st0 := &c04state{p: p, adv: adv, honest: honest, updSent: map[string]time.Duration{}}
+		if prop == "C04" {
+			// when was each update proposal for the honest client put on the wire?
+			p.w.Bus.Tap = func(from, to string, e *wire.Envelope, fate string) {
+				if u, ok := e.Msg.(client.ChannelUpdateProposal); ok && to == p.n[honest].Name {
+					k := fmt.Sprintf("%x:%d", u.Base().State.ID, u.Base().State.Version)
+					st0.mu.Lock()
+					if _, seen := st0.updSent[k]; !seen {
+						st0.updSent[k] = s.Now()
+					}
+					st0.mu.Unlock()
+				}
+			}
+		}
 		if prop == "C04" {
 			// the honest side settles when it sees the channel registered (as client/test.Carol does)
 			p.n[honest].OnAdjEvent = func(ch *client.Channel, e channel.AdjudicatorEvent) {
